@@ -1032,7 +1032,7 @@ func main() {
 	// 1. systematic: every start value 0..65535
 	var covered [65536]atomic.Bool
 	nSizes := run.Pick(3, len(bufSizes))
-	rounds := run.Pick(1, 3)
+	rounds := 1
 	const startsPerJob = 64
 	run.Parallel(65536/startsPerJob, func(k, job int) {
 		w := getWorker(k)
